@@ -27,10 +27,46 @@ Fixpoint spec_run (o : oracle) (h w : nat) (scr : screen) (drawn : grid cell)
          | Draw g => spec_run o h w scr' g ops' impl'
          | Frame => same_display scr' (show o h w drawn)
                     && spec_run o h w scr' (gmake h w cell_default) ops' impl'
-         | Clear => spec_run o h w scr' drawn ops' impl'
-             (* clear() forces the next frame to repaint; what the application drew stays drawn *)
          | Resize h' w' _ => spec_run o h' w' scr' (gmake h' w' cell_default) ops' impl'
          | _ => spec_run o h w scr' (gmake h w cell_default) ops' impl'
          end
   | _, _ => false
+  end.
+
+(* ---------- idle frames ---------- *)
+(* a frame for a surface that (glyphs resolved) equals the one the previous frame displayed, with no
+   clear / re-creation / resize in between, issues no command at all *)
+Fixpoint cgrid_eqb (a b : grid cell) : bool :=
+  match a, b with
+  | [], [] => true
+  | x :: a', y :: b' =>
+      (fix row (u v : list cell) : bool :=
+         match u, v with
+         | [], [] => true
+         | p :: u', q :: v' => cell_eqb p q && row u' v'
+         | _, _ => false
+         end) x y && cgrid_eqb a' b'
+  | _, _ => false
+  end.
+
+Definition cmds_nil (l : list cmd) : bool := match l with [] => true | _ => false end.
+
+Fixpoint idle_ok (o : oracle) (h w : nat) (prev : option (grid cell)) (drawn : grid cell)
+         (ops : list op) (impl : list (list cmd)) : bool :=
+  match ops, impl with
+  | x :: ops', cs :: impl' =>
+      match x with
+      | Draw g => idle_ok o h w prev g ops' impl'
+      | Frame =>
+          let now := map (map (resolve o)) drawn in
+          (match prev with
+           | Some p => if cgrid_eqb now p then cmds_nil cs else true
+           | None => true
+           end)
+          && idle_ok o h w (Some now) (gmake h w cell_default) ops' impl'
+      | SkipFrame => idle_ok o h w prev (gmake h w cell_default) ops' impl'
+      | Clear | Renew => idle_ok o h w None (gmake h w cell_default) ops' impl'
+      | Resize h' w' _ => idle_ok o h' w' None (gmake h' w' cell_default) ops' impl'
+      end
+  | _, _ => true
   end.
